@@ -806,3 +806,63 @@ Fixpoint walk_dd (dd : ddocs) (prev : snapshot) (steps : list (sctx * sop)) (obs
   end.
 
 Definition chk_C12_kv (t : scase * list ostep) : bool := walk_dd [] (snap0 (fst t)) (sc_steps (fst t)) (snd t).
+
+(* ------------------------------------------------------------------------------------------ *)
+(* C10: what a bucket shows when it is reopened after the process was killed                     *)
+
+Record crash_obs := mkCrashObs {
+  co_acked : N;              (* steps acknowledged before the kill *)
+  co_finished : bool;        (* the kill point was never reached: the whole history ran *)
+  co_committed : bool;       (* the kill came after the interrupted call's transaction had committed *)
+  co_snap : snapshot;        (* full read-back through a fresh process *)
+  co_ddocs : list string;    (* collection/designdoc/view, sorted *)
+  co_uuid_same : bool
+}.
+
+Definition reopen_step : sctx * sop := (mkSctx 0 0 0, SReopen).
+
+Definition snap_after (c : scase) (k : nat) : snapshot :=
+  match rev (srun (mkScase (sc_colls c) (sc_keys c) (sc_xnames c) (firstn k (sc_steps c) ++ [reopen_step]))) with
+  | o :: _ => os_snap o
+  | [] => snap0 c
+  end.
+
+Fixpoint insert_string (x : string) (l : list string) : list string :=
+  match l with
+  | [] => [x]
+  | y :: r => match String.compare x y with Gt => y :: insert_string x r | _ => x :: l end
+  end.
+
+Definition crash_ddocs_after (c : scase) (k : nat) : list string :=
+  let s := sfinal_from store0 (firstn k (sc_steps c)) in
+  fold_right insert_string []
+    (map (fun v => match alookup N.eqb (vd_coll v) (s_colls s) with
+                   | Some p => (fst p ++ "/" ++ vd_ddoc v ++ "/" ++ vd_name v)%string
+                   | None => "?"%string
+                   end) (s_views s)).
+
+Definition snapshot_eqb (a b : snapshot) : bool :=
+  strs_eqb (sn_colls a) (sn_colls b) && rows_eqb (sn_rows a) (sn_rows b) && order_eqb (sn_order a) (sn_order b)
+  && (match sn_lastcas a, sn_lastcas b with
+      | (_, x) :: _, (_, y) :: _ => x =? y
+      | [], [] => true
+      | _, _ => false
+      end).
+
+Definition crash_state_is (c : scase) (o : crash_obs) (k : nat) : bool :=
+  snapshot_eqb (snap_after c k) (co_snap o) && strs_eqb (crash_ddocs_after c k) (co_ddocs o).
+
+(* the property: the acknowledged prefix is there; the interrupted call is there entirely or not at all;
+   the bucket is the same bucket *)
+Definition chk_crash (t : scase * crash_obs) : bool :=
+  let a := N.to_nat (co_acked (snd t)) in
+  co_uuid_same (snd t)
+  && (crash_state_is (fst t) (snd t) a || (negb (co_finished (snd t)) && crash_state_is (fst t) (snd t) (S a))).
+
+(* the correspondence: exactly which of the two, from where the kill happened *)
+Definition crash_corr_ok (t : scase * crash_obs) : bool :=
+  let a := N.to_nat (co_acked (snd t)) in
+  co_uuid_same (snd t)
+  && crash_state_is (fst t) (snd t) (if negb (co_finished (snd t)) && co_committed (snd t) then S a else a).
+
+Definition crash_model (c : scase) := (snap_after c (List.length (sc_steps c)), crash_ddocs_after c (List.length (sc_steps c))).
